@@ -80,7 +80,8 @@ def cases(L, tier, seed):
     items = [
         ('builders.normalize', B.normalize, dict(C=C.copy())), ('builders.transpose', B.transpose, dict(C=C.copy())),
         ('builders.mle', B.mle, dict(C=C.astype(float))), ('builders.normalize[csr]', B.normalize, dict(C=sp.csr_matrix(C))),
-        ('trim_disconnected', TM.trim_disconnected, dict(counts=C.copy())), ('eigenspectrum', TM.eigenspectrum, dict(T=T.copy())),
+        ('trim_disconnected', TM.trim_disconnected, dict(counts=C.copy())), ('trim_disconnected[threshold=2]', TM.trim_disconnected, dict(counts=C.copy(), threshold=2)),
+        ('trim_disconnected[pseudo-counts]', TM.trim_disconnected, dict(counts=C + 0.25)), ('trim_disconnected[in place]', TM.trim_disconnected, dict(counts=C.copy(), threshold=3, renumber_states=False)), ('eigenspectrum', TM.eigenspectrum, dict(T=T.copy())),
         ('eq_probs', TM.eq_probs, dict(T=T.copy())), ('assigns_to_counts', TM.assigns_to_counts, dict(assigns=F.T.copy(), lag_time=1)),
         ('committors', TC.committors, dict(tprob=T.copy(), sources=[0], sinks=[3])), ('mfpts', TC.mfpts, dict(tprob=T.copy())),
         ('mfpts[sinks]', TC.mfpts, dict(tprob=T.copy(), sinks=[1, 2])), ('reactive_fluxes', TP.reactive_fluxes, dict(tprob=Ts.copy(), sources=[0], sinks=[3])),
